@@ -160,4 +160,20 @@ def expectedAction45 : String :=
 def expectedActions : List String := [
   expectedAction0, expectedAction1, expectedAction2, expectedAction3, expectedAction4, expectedAction5, expectedAction6, expectedAction7, expectedAction8, expectedAction9, expectedAction10, expectedAction11, expectedAction12, expectedAction13, expectedAction14, expectedAction15, expectedAction16, expectedAction17, expectedAction18, expectedAction19, expectedAction20, expectedAction21, expectedAction22, expectedAction23, expectedAction24, expectedAction25, expectedAction26, expectedAction27, expectedAction28, expectedAction29, expectedAction30, expectedAction31, expectedAction32, expectedAction33, expectedAction34, expectedAction35, expectedAction36, expectedAction37, expectedAction38, expectedAction39, expectedAction40, expectedAction41, expectedAction42, expectedAction43, expectedAction44, expectedAction45]
 
+/-- FNV-1a/64 of each whitespace-normalised body above, as computed by the translator when this
+    table was written (`Gen.actionSums` is recomputed from jsonpath.peg on every run) -/
+def expectedSums : List Nat := [
+  4097138655736111486, 11619743455343266197, 14792067106702872163, 9439125425925775307, 
+  10142825486320095336, 13882606785450659637, 11153279140416276477, 10142825486320095336, 
+  5244672959537482659, 1591760824138843720, 41219260052295667, 13667979167652717060, 
+  7782880986413762449, 10251121645360503680, 9644909493582661611, 4316788070516578014, 
+  5188051591783813068, 18130582262942155196, 12612060325498830685, 18092800465428735096, 
+  16321738329635010750, 12868429139192341137, 17859374762577108974, 754536864901750098, 
+  3061599571065535068, 8317143989673556734, 10701533427731450916, 18323629282792846132, 
+  8065435045366502829, 6518189071111018452, 8788573888454368642, 17728967868464809567, 
+  16466545899877268651, 4079367261432638046, 17734470498492659732, 3432618303460048053, 
+  3432618303460048053, 5388635606814472592, 13546093165385933319, 7781714746799382172, 
+  13399772472332536653, 11202310049321065180, 17469851525405239963, 12347130336694200164, 
+  12347130336694200164, 12185639001189609143]
+
 end JPV.Peg
